@@ -143,4 +143,6 @@ def add_validation(rep, idx):
     check_refusal(rep, "C07.5", c, "add(): optional outputs err/rty/stall of the subordinate need the decoder's feature",
                   ["hasattr(sub_bus, v) and Feature(v) not in self.bus.features", "hasattr(sub_bus, v) and not hasattr(self.bus, v)"],
                   "ValueError", loop_values=["err", "rty", "stall"])
+    from .common import closed_refusals
+    closed_refusals(rep, "C07.5", c, "add() refuses nothing but the documented cases (request-side options lock/cti/bte get defaults instead)")
     glue.registry_and_window(rep, "C07.5", idx, fi, ("name", "addr", "sparse"))
